@@ -83,6 +83,10 @@ impl WorldB {
                 w[20] = 6;
             }
         }
+        if self.cfg.get("setmax") == 1 {
+            w[10] = 8;
+            w[0] = 8;
+        }
         match fam {
             "handshake" => {
                 w[0] = 5;
